@@ -11,6 +11,13 @@ fn len_case<L: Length>(name: &str, len: usize, s: u8) -> bool {
     println!("{name}: serialize({len}) = {p:02x?}; deserialize({b:02x?}) = {:?}", L::deserialize(&b));
     check_len_roundtrip::<L>(len, s)
 }
+fn bare_case<L: Length>(name: &str, len: usize, cut: usize) -> bool {
+    let p = L::serialize(len);
+    let k = if p.is_empty() { 0 } else { cut % p.len() };
+    println!("{name}: serialize({len}) = {p:02x?}; deserialize(prefix alone) = {:?}; deserialize(first {k} byte(s) {:02x?}) = {:?}",
+        L::deserialize(&p), &p[..k], L::deserialize(&p[..k]));
+    check_len_bare::<L>(len, cut)
+}
 fn enc_case<T: PartialEq + std::fmt::Debug, E: Encoding<T>>(name: &str, v: T) -> bool {
     let b = E::encode(&v);
     println!("{name}: encode({v:?}) = {b:02x?}; decode = {:?}", E::decode(&b).map(|(w, r)| (w, r.to_vec())));
@@ -21,7 +28,11 @@ fn main() {
     if a.len() < 3 { eprintln!("usage: replay <harness> <value> [suffix byte]"); std::process::exit(2); }
     let v: u128 = a[2].parse().expect("value");
     let s: u8 = a.get(3).map(|x| x.parse().expect("suffix")).unwrap_or(0);
-    let ok = match a[1].as_str() {
+    let ok = std::panic::catch_unwind(|| match a[1].as_str() {
+        "tlv_bare" => bare_case::<length::Tlv>("Tlv", v as usize, s as usize),
+        "adpu_bare" => bare_case::<length::Adpu>("Adpu", v as usize, s as usize),
+        "llv_bare" => bare_case::<length::Llv>("Llv", v as usize, s as usize),
+        "lllv_bare" => bare_case::<length::Lllv>("Lllv", v as usize, s as usize),
         "tlv_roundtrip" => len_case::<length::Tlv>("Tlv", v as usize, s),
         "adpu_roundtrip" => len_case::<length::Adpu>("Adpu", v as usize, s),
         "llv_roundtrip" => len_case::<length::Llv>("Llv", v as usize, s),
@@ -41,6 +52,10 @@ fn main() {
         "bcd_u8_roundtrip" => enc_case::<u8, encoding::Bcd>("u8 BCD", v as u8),
         "bcd_u16_roundtrip" => enc_case::<u16, encoding::Bcd>("u16 BCD", v as u16),
         other => { eprintln!("unknown harness {other}"); std::process::exit(2); }
+    });
+    let ok = match ok {
+        Ok(b) => b,
+        Err(_) => { println!("REPLAY: the real code PANICKED for this input (see the panic message above)"); std::process::exit(1); }
     };
     if ok { println!("REPLAY: property holds for this input"); } else { println!("REPLAY: property VIOLATED for this input"); std::process::exit(1); }
 }
